@@ -646,6 +646,7 @@ def check_types(
             return arg_value
 
         error_handler = ErrorHandler(lazy=True)
+        lazy_reports: List[errors.SchemaErrors] = []
         for schema_model, annotation_info in annotation_model_pairs:
             if schema_model is None:
                 return arg_value
@@ -705,6 +706,11 @@ def check_types(
                             ),
                         )
                         continue  # pylint: disable=unreachable
+                    except errors.SchemaErrors as e:
+                        # lazy validation reports a rejection as SchemaErrors:
+                        # the next alternative of a Union is still tried
+                        lazy_reports.append(e)
+                        continue
 
                 if data_container_type and config and config.to_format:
                     arg_value = data_container_type.to_format(
@@ -712,6 +718,9 @@ def check_types(
                     )
 
                 return arg_value
+
+        if lazy_reports:
+            raise lazy_reports[0]
 
         if error_handler.schema_errors:
             if len(error_handler.schema_errors) == 1:
